@@ -256,10 +256,14 @@ var (
 	_ driver.Pinger             = (*l2Conn)(nil)
 )
 
-func (c *l2Conn) Prepare(q string) (driver.Stmt, error) { return c.PrepareContext(context.Background(), q) }
-func (c *l2Conn) Close() error                          { return c.inner.Close() }
-func (c *l2Conn) Begin() (driver.Tx, error)             { return c.BeginTx(context.Background(), driver.TxOptions{}) }
-func (c *l2Conn) Ping(ctx context.Context) error        { return c.inner.Ping(ctx) }
+func (c *l2Conn) Prepare(q string) (driver.Stmt, error) {
+	return c.PrepareContext(context.Background(), q)
+}
+func (c *l2Conn) Close() error { return c.inner.Close() }
+func (c *l2Conn) Begin() (driver.Tx, error) {
+	return c.BeginTx(context.Background(), driver.TxOptions{})
+}
+func (c *l2Conn) Ping(ctx context.Context) error { return c.inner.Ping(ctx) }
 
 func (c *l2Conn) BeginTx(ctx context.Context, opts driver.TxOptions) (driver.Tx, error) {
 	if err := c.hub.before(c, StmtBegin, "BEGIN"); err != nil {
